@@ -337,7 +337,7 @@ def mc_proc_params(iface, sigma, N, maxlen, legacy="", faults=True):
 
 
 C07_EXTRA = ["A:S \"x\ny\"", "A:K #13a\nb", "A:E? 'a long answer, longer than its query'", "A:H? #215fifteen\nbytes..", "MEAS:VOLT?", "A:B:D?",
-             "A:E? \"r\ns\"", "*Q?", "C?", "*I?"]
+             "A:E? \"r\ns\"", "*Q?", "C?", "*I?", "K2?", "M?", "L?"]
 
 
 def c07(tier):
@@ -399,7 +399,27 @@ def c07(tier):
         for N in (64, 128):
             if len(whole) <= N:
                 cases.append(procset_case(whole, N, variants_for(s.rng, len(whole), False)))
+    # 2d. several answered messages per read, response sizes in every order relative to N (small then large, large then small ...)
+    ladder = ["B:D?", "A:E? 'qqq'", "K2?", "M?", "L?", "A:H? #15hello", "C"]
+    rsize = {"B:D?": 2, "A:E? 'qqq'": 6, "K2?": 13, "M?": 23, "L?": 43, "A:H? #15hello": 9, "C": 0}
+    for N in (16, 24, 32, 48, 64, 128):
+        for q1 in ladder:
+            for q2 in ladder:
+                tail = s.rng.choice(ladder)
+                for msgs in ([q1, q2], [q1, q2, tail]):
+                    whole = ("\n".join(msgs) + "\n").encode("latin1")
+                    ms = [(m + "\n").encode("latin1") for m in msgs]
+                    if msgs_fit(ms, N) and (len(msgs) == 2 or s.rng.random() < 0.3):
+                        # the comparison with run applies where every response fits the N-byte response buffer as well
+                        cases.append(procset_case(whole, N, [{"chunks": []}, {"chunks": [len(m) for m in ms]}, {"chunks": [1] * len(whole)}],
+                                                  msgs=ms if max(rsize[m] for m in msgs) <= N else None))
     recs = s.execute(cases, "c07")
+    # the comparison with run (unbounded writer) is not owed for a session in which the responses to one message exceeded the
+    # N-byte response buffer of process (-223 Too much data; the specification accepts that error only where they do not fit)
+    for r in recs:
+        if r["kind"] == "procset" and "runs" in r["obs"] and any(e.get("n") == -223 for v in r["obs"]["v"] for e in v):
+            del r["obs"]["runs"]
+            s.cov["run_comparison_skipped_response_overflow"] = s.cov.get("run_comparison_skipped_response_overflow", 0) + 1
     rejected = s.validate(recs, "c07", chunk=400 if tier == "quick" else 800)
     s.report_rejected(rejected, "process produced different handler calls / errors / response bytes for two delivery schedules of one stream, "
                                 "or an outcome the stream semantics of the specification does not allow")
@@ -963,6 +983,13 @@ def c05(tier):
     for n in ((63, 64, 65, 255, 256, 257, 1000, 4096) if tier == "quick" else (15, 16, 17, 63, 64, 65, 127, 128, 255, 256, 257, 300, 511, 512, 1000, 1023, 2048, 4095, 4096)):
         for msg in (b"A:K " + block(bytes((7 * k) % 251 for k in range(n))) + b"\n", b"A:S '" + b"s" * n + b"'\n", b"A:E? \"" + b"e" * n + b"\"\n"):
             cases.append({"kind": "multi", "iface": "main", "in": b(msg), "writers": mw[:4], "procs": [{"N": 1024, "chunks": []}] if n < 1000 else []})
+    # (2b) the library's own SYSTem commands: error queue traffic incl. handler-raised errors with long, non-ASCII descriptions
+    for i in range(150 if tier == "quick" else 1500):
+        msgs = random_history(s.rng, QUEUE_VOCAB, s.rng.randint(2, 10), maxunits=3)
+        whole = "".join(msgs)
+        cases.append({"kind": "multi", "iface": "queue%d" % s.rng.choice([1, 2, 4, 10]), "in": b(whole),
+                      "writers": [{"k": "rec"}, {"k": "std"}, {"k": "heapless", "cap": 8}, {"k": "heapless", "cap": 64}, {"k": "heapless", "cap": 512}],
+                      "procs": [{"N": 64, "chunks": []}, {"N": 1024, "chunks": s.rng.choice([[], random_chunks(s.rng, len(whole))])}]})
     rdesc = json.load(open(os.path.join(C.SPEC, "ifaces", "resp.json")))
     for c in rdesc["cmds"]:
         sp = c["beh"].get("spec", {})
@@ -1353,7 +1380,7 @@ CHECKS["C14"] = lambda tier: tree_check("C14", tier)
 
 # ----------------------------------------------------------------------- C09
 QUEUE_VOCAB = ["C", "F", "G", "Z", "N 999", "N", "T 5", "SYST:ERR?", "SYST:ERR:NEXT?", "SYST:ERR:COUN?", "Q?", "H?", "SYST:VERS?",
-               "FIRM:VERS?", "DIAG:COUN?", "DIAG:NEXT?", "SYST:ERR? 1", "SYST:ERR:COUN? 0", "SYST:ERR:NEXT? #H1", "SYST:VERS? 'x'", "SYST:ERR", "SYST:ERR:COUN"]
+               "FIRM:VERS?", "DIAG:COUN?", "DIAG:NEXT?", "E1", "E2", "E3", "E4", "E5", "SYST:ERR? 1", "SYST:ERR:COUN? 0", "SYST:ERR:NEXT? #H1", "SYST:VERS? 'x'", "SYST:ERR", "SYST:ERR:COUN"]
 QUEUE_CODES = [-113, -104, -120, -224, -350, -115]
 
 
@@ -1628,6 +1655,15 @@ def c03(tier):
     cases = []
     for ty, lit in lits:
         cases.append(run_case("V:%s %s\n" % (TYNAME[ty], lit), iface="vals"))
+    # what follows the literal: digit runs of every length up to 40 (integer part, fraction, exponent) directly before each
+    # kind of continuation - unit separator, separator + absolute header, white space, comma (one parameter too many), CR LF
+    followers = [";V:U8 1\n", ";:V:U8 1\n", " ;V:U8 1\n", "\r\n", ";\n", ",1\n", "\t;:V:U8 1\n"]
+    for n in range(1, 41 if tier == "quick" else 81):
+        runs = [("u64", "0" * (n - 1) + "7"), ("f64", "0" * (n - 1) + "7"), ("f64", "1." + "0" * (n - 1) + "5"), ("f32", "7e" + "0" * (n - 1) + "2"),
+                ("u8", "0" * (n - 1) + "9"), ("i64", "-" + "0" * (n - 1) + "3"), ("f64", "." + "1" * n), ("u32", "1" * min(n, 9) + "." + "0" * n)]
+        for ty, lit in runs:
+            for f in followers:
+                cases.append(run_case("V:%s %s%s" % (TYNAME[ty], lit, f), iface="vals"))
     # parameter count matrix: 0..12 written against 0..10 declared; first failing parameter decides
     for k in range(0, 11):
         for w in range(0, 13):
@@ -1785,6 +1821,16 @@ def c04(tier):
         seq = [s.rng.choice(pool) for _ in range(k)]
         whole = ";:".join(seq) + "\n"
         cases.append({"kind": "multi", "iface": "resp", "in": u8(whole), "writers": writers[:3], "procs": [{"N": 1024, "chunks": []}]})
+    # several messages delivered by ONE read, response sizes in every order (each fits the buffer on its own)
+    for c in desc["cmds"]:
+        sp = c["beh"].get("spec", {})
+        if sp.get("k") == "table" and c["cmd"] in ("R:SBLK?", "R:SSTR?", "R:SL?"):
+            n = len(sp["vals"])
+            for i in range(n):
+                for j in range(n):
+                    whole = "%s %d\n%s %d\nR:U8? 7\n" % (c["cmd"], i, c["cmd"], j)
+                    cases.append({"kind": "multi", "iface": "resp", "in": u8(whole), "writers": writers[:1],
+                                  "procs": [{"N": 1024, "chunks": []}, {"N": 1024, "chunks": [len(whole) // 2, 1, 4096]}, {"N": 64, "chunks": []}]})
     recs = s.execute(cases, "c04")
     rejected = s.validate(recs, "c04", chunk=300)
     s.report_rejected(rejected, "a response is missing, malformed, out of order, does not decode to the returned value, differs between writers, "
